@@ -54,7 +54,7 @@ if not _known_listed("KF2"):
     IDENT_POOL += ["MAX", "MIN"]
 
 NASTY_NAMES = ["", " ", "  lead", "trail ", "a b", "\"", "\\", "\\n", "\n", "\t", "{}", "{0}", "{:?}", "{{", "}",
-               "%s", "'", "\0", "a\0b", "é", "é", "名前", "🦀", "A*", "a-b", "a::b", "#", "r#\"x\"#",
+               "%s", "'", "\0", "a\0b", "a\0", "ab\0\0", "é", "é", "名前", "🦀", "A*", "a-b", "a::b", "#", "r#\"x\"#",
                "​", "﻿", "ß", "SS", "İ", "i̇", "x" * 300, "\r\n", "\r", "null", "None", "Self",
                " ", "‮", "\x7f", "\x1b[0m"] + ["n" * k for k in (7, 8, 9, 15, 16, 17, 31, 32, 33, 63, 64, 65, 127, 128, 255, 256, 257)] + ["é" * k for k in (4, 8, 16)] + ["r#async", "r#", "r#type", "b'x'", "c\"x\""]
 
@@ -476,6 +476,22 @@ def enum_specs(draw, prof=None):
                     v["rename_raw"] = False
                     nm = nm2
                 seen.add(nm)
+            # pad one name so that the sum of all name lengths lands on / next to a power of two
+            # (string tables addressed by narrow offsets)
+            if chance(draw, 0.1):
+                total = sum(len((v.get("rename") if v.get("rename") is not None else v["ident"]).encode("utf-8")) for v in variants)
+                target = draw(st.sampled_from([255, 256, 257, 256, 511, 512, 65535, 65536, 65537]))
+                if target > 1000 and not chance(draw, 0.25):
+                    target = 256
+                j = draw(st.integers(0, n - 1))
+                if total < target:
+                    v = variants[j]
+                    nm = (v.get("rename") if v.get("rename") is not None else v["ident"])
+                    nm2 = nm + "_" * (target - total)
+                    if nm2 not in seen:
+                        v["rename"] = nm2
+                        v["rename_raw"] = False
+                        v["padded_total"] = target
 
     # foreign attributes
     enum_attrs = []
@@ -588,7 +604,7 @@ def configs(draw, spec, force=(), forbid=(), p_on=0.5, params=True, split=True, 
                         cands = [""]
                 ps.append(["vis", draw(st.sampled_from(cands))])
         if params and struct_names and f in E.STRUCT_FEATURES and chance(draw, 0.2):
-            sn = draw(st.sampled_from(["My%sStruct" % f.capitalize(), "It_%s" % f, "Σ%s" % f.capitalize()] + fn_names[-1:]))
+            sn = draw(st.sampled_from(["My%sStruct" % f.capitalize(), "It_%s" % f, "Σ%s" % f.capitalize(), "XIter", "XNames", "Q%s" % ("Names" if f == "iter" else "Iter")] + fn_names[-1:]))
             # a struct (type namespace, module level) may share its name with an associated fn / const of the enum
             if (sn not in used_names or sn in fn_names) and sn not in struct_used:
                 used_names.add(sn)
